@@ -187,6 +187,17 @@ theorem write_below_limit (c : Cfg) (s s' : St) (ev size el : Nat) (hm : c.maxBy
   | errRotate => simp at h
   | errFormat => simp at h
 
+/-- **Never otherwise**: a write into an open file whose rotation condition does not hold touches no
+name — no rotation, no new file, nothing pruned: the directory and the open descriptor stay as they
+were, the event is appended to the active file and acknowledged. -/
+theorem no_rotation_without_trigger (c : Cfg) (s : St) (i ev size el : Nat) (hfd : s.fd = some i)
+    (hn : needRotate c s.bytesWritten el = false) :
+    (step c s (.write ev size el)).2 = .ok ∧ (step c s (.write ev size el)).1.dir = s.dir ∧
+    (step c s (.write ev size el)).1.fd = some i ∧ (step c s (.write ev size el)).1.acked = s.acked ++ [ev] := by
+  have ho : openFile c s = s := by unfold openFile; simp [hfd]
+  have hr : rotate c s el = (s, .ok) := by unfold rotate; simp [hn]
+  simp [step, ho, hfd, hr, appendTo]
+
 /-- a file is created with the configured mode (0600 when unset) -/
 theorem created_mode (c : Cfg) (s : St) (h : s.fd = none)
     (hnew : lookup s.dir (openName c s) = none) :
